@@ -222,13 +222,6 @@ theorem flush_spec_screen (rb : RB) (hwf : FlushWF rb) : FlushSpecScreen rb := b
   have he := GridTerm.runL_eq_of_calm L _ t h3
   exact ⟨h1, he, by rw [he]; exact h2⟩
 
-/-- A buffer that fits on the screen has its content within the screen. -/
-theorem want_keep_outside (rb : RB) (W L : Int) (hL : rb.lines ≤ L) (hW : rb.cols ≤ W) :
-    ∀ l c, L ≤ l ∨ W ≤ c → want rb l c = .keep := by
-  intro l c h
-  unfold want
-  rw [if_pos (by unfold RB.inGrid; omega)]
-
 /-- `FlushSpec` (the plane, a terminal at least as wide as the buffer) is the special case `L = rb.lines`. -/
 theorem flushSpec_of_screen (rb : RB) (h : FlushSpecScreen rb) : FlushSpec rb := by
   intro t hcw
